@@ -51,8 +51,8 @@ def h_readAsync(ex, recv, args, kwargs, st, fr, node):
     # readiness event would ever deliver it; the SEND-side recordSize has nothing to do with it
     from pyvc.values import VInt
     a = args[0] if args else kwargs.get('max')
-    ex.oblige(st, 'inReadEvent:implicit-reader-asks-for-a-full-record(2^14-bytes)',
-              z3.BoolVal(False) if a is None else to_val(a) == to_val(VInt(16384)), kind='m2')
+    ex.oblige(st, 'inReadEvent:implicit-reader-asks-for-at-least-a-full-record(2^14-bytes)',
+              (a.t >= 16384) if isinstance(a, VInt) else z3.BoolVal(False), kind='m2')
     return [Outcome('normal', st, fresh_opaque('reader'))]
 
 
